@@ -17,4 +17,8 @@ mod common;
 #[cfg(kani)]
 mod xstubs;
 #[cfg(kani)]
+mod x01;
+#[cfg(kani)]
 mod x15;
+#[cfg(kani)]
+mod x17;
